@@ -1792,6 +1792,9 @@ class Interp:
 
     def getslice(self, base, lo, hi, step=None):
         base = self.resolve(base)
+        from .values import VAny as _VAny
+        if isinstance(base, _VAny):
+            return self.any_child(base, "slice", VTuple([x if x is not None else NONE for x in (lo, hi)]))
         if step is not None and not isinstance(step, VNone):
             return self.B.slice_step(self, base, lo, hi, step)
         if isinstance(base, VBytes):
